@@ -141,7 +141,7 @@ func runGraph(sc *gScen) *gRun {
 		comps = append(comps, n)
 	}
 	obs := &obsPP{env: env}
-	comps = append(comps, obs, newDynCompScanner(), newDynCfgScanner())
+	comps = append(comps, obs, newDynCompScanner(), newDynCfgScanner(), &reRegScanner{})
 	if sc.scanFail {
 		comps = append(comps, &failScanner{})
 	}
@@ -896,7 +896,9 @@ func (r *gRun) oracles() []string {
 				if p, ok := pubOf[row]; ok && p != o {
 					add("c03-stale", "field %s holds %s but the published version is %s", k, o, p)
 				}
-				if ri, err := strconv.Atoi(row); err == nil && ri < len(r.sc.nodes) && !r.created[r.rows[ri].name] {
+				// (not in retry scenarios: there a creation may fail for good AFTER a partner was published holding its early
+				// reference — the partner is not rolled back, and C01 speaks about components that resolved, not about failed ones)
+				if ri, err := strconv.Atoi(row); err == nil && ri < len(r.sc.nodes) && !r.created[r.rows[ri].name] && !r.sc.retry() {
 					add("c01-uncreated", "field %s holds %s which never completed creation", k, o)
 				}
 			}
